@@ -39,8 +39,10 @@ class SgraphFromSelectorsTripleYielder(BaseTriplesYielder):
         for a_triple in self._yield_relevant_direct_triples(target_nodes, sgraph):
             yield a_triple
         if self._inverse_paths:
+            set_of_target_nodes = set(target_nodes)
             for a_triple in self._yield_relevant_inverse_triples(target_nodes, sgraph):
-                yield a_triple
+                if str(a_triple[0]) not in set_of_target_nodes:  # Otherwise, it was already yielded as a direct triple
+                    yield a_triple
 
     def _yield_relevant_direct_triples(self, target_nodes, sgraph):
         for s, p, o in sgraph.yield_p_o_triples_of_target_nodes(target_nodes=target_nodes,
